@@ -116,10 +116,10 @@ theorem targets_order (ts : List Path) :
   exact absurd h3 (by simp)
 
 /-- **files_before_dir** — the effect of `targets_order`: when `clean_targets` (no dry run) reaches a target
-    directory `d` whose whole content are target files of the same task (no symbolic links around), `d` is empty
-    and is removed -/
+    directory `d` whose whole content are target files of the same task (`LinksAway`: `d` is not itself a symbolic
+    link and no symbolic link lies below it), `d` is empty and is removed -/
 theorem files_before_dir (t : Name) (targets : List Path) (w : World) (evs : List Ev) (d : Path)
-    (hd : d ∈ targets) (hnf : d ∉ w.files) (hnl : w.links = [])
+    (hd : d ∈ targets) (hnf : d ∉ w.files) (hnl : LinksAway d w)
     (hfiles : ∀ q, q ∈ w.files → below d q = true → q ∈ targets)
     (hdirs : ∀ q, q ∈ w.dirs → below d q = false) :
     d ∉ (cleanTargets false t targets (w, evs)).1.dirs :=
@@ -135,33 +135,44 @@ theorem symlink_destination_untouched (dry : Bool) (t : Name) (st : World × Lis
   simp only [hnf, if_false, hl, if_true]
   exact rmLink_files dry t st p _
 
-/-- **no_links_no_crash** — the one way the model knows for `clean` to die half-way (`os.rmdir` called on a
-    symbolic link to an empty directory, event `crash`) needs a symbolic link: without links in the world the
-    command runs to its end, so every statement here about `res` is a statement about the code's full run -/
-theorem no_links_no_crash (tbl : Table) (r : Req) (w : World) (res : Result)
-    (h : run tbl r w = .ok res) (hl : w.links = []) : res.crashed = false := by
+/-- **clean_runs_to_its_end** — the model has no way to die half-way any more: since fix a5ed062 (a target that is a
+    symbolic link to an empty directory is removed with `os.remove`, not handed to `os.rmdir`) no `crash` event is
+    ever emitted, for any table, command line and world; every statement here about `res` is a statement about the
+    code's complete run -/
+theorem clean_runs_to_its_end (tbl : Table) (r : Req) (w : World) (res : Result)
+    (h : run tbl r w = .ok res) : res.crashed = false := by
   unfold run at h
   cases hp : plan tbl r with
   | error e => simp [hp] at h
   | ok p =>
     simp only [hp] at h
     cases h
-    have := (cleanTasks_nlnc tbl r.dryrun r.forget p.order w hl).2
+    have := cleanTasks_nocrash tbl r.dryrun r.forget p.order w
     simp only [Result.crashed, List.any_eq_false]
     intro e he
     simp [this e he]
 
+/-- the pinned behaviour (before a5ed062): a target link `l -> e` to an empty directory: announcement, then
+    `os.rmdir(l)` fails — the `crash` event, link and directory still there; the current model removes the link -/
+theorem pinned_symlink_to_empty_dir_crashes :
+    (rmLinkPinned false 0 (⟨[], [['e']], [], [(['l'], ['e'])]⟩, []) ['l'] ['e']).2 = [Ev.rmDir 0 ['l'], Ev.crash 0 ['l']] ∧
+    (rmLinkPinned false 0 (⟨[], [['e']], [], [(['l'], ['e'])]⟩, []) ['l'] ['e']).1.links.map Prod.fst = [['l']] ∧
+    (rmLink false 0 (⟨[], [['e']], [], [(['l'], ['e'])]⟩, []) ['l'] ['e']).2 = [Ev.rmDir 0 ['l']] ∧
+    (rmLink false 0 (⟨[], [['e']], [], [(['l'], ['e'])]⟩, []) ['l'] ['e']).1.links.map Prod.fst = [] := by decide
+
 /-- a target `dist/latest.txt -> ../store/v1.txt`: the link goes, the file it points to (a target of no task) stays;
-    a target link to an empty directory: the announcement, then the crash -/
+    a target link to an empty directory: the link goes, the directory stays -/
 example :
     (match run [⟨['t'], [], [], none, [['l']], .targets⟩] ⟨[], none, false, false, false, false⟩
         ⟨[['v']], [], [], [(['l'], ['v'])]⟩ with
       | .ok res => some (res.world.files, res.world.links.map Prod.fst, res.events, res.crashed) | .error _ => none) =
-    some ([['v']], [], [Ev.rmFile 0 ['l']], false) ∧
+    some ([['v']], [], [Ev.rmFile 0 ['l']], false) := by decide
+
+example :
     (match run [⟨['t'], [], [], none, [['l']], .targets⟩] ⟨[], none, false, false, false, false⟩
         ⟨[], [['e']], [], [(['l'], ['e'])]⟩ with
-      | .ok res => some (res.world.dirs, res.events, res.crashed) | .error _ => none) =
-    some ([['e']], [Ev.rmDir 0 ['l'], Ev.crash 0 ['l']], true) := by decide
+      | .ok res => some (res.world.dirs, res.world.links.length, res.events, res.crashed) | .error _ => none) =
+    some ([['e']], 0, [Ev.rmDir 0 ['l']], false) := by decide
 
 /-- **dryrun_frame** — with `--dry-run` the command changes neither files, nor directories, nor the DB
     (whatever else is on the command line, `--forget` included) -/
